@@ -252,6 +252,12 @@ class Runner:
                     ctl.expect_noticed = 0
                     ctl.inject(m["body"], m["sender"], m["rcpts"], env_extra={"VERIF_KILL": str(act[2])})
                     ctl.run()
+                elif op == "inject_fault":
+                    # an injector whose envelope stream ends early (it cleans up after itself) and whose k-th call fails on top
+                    m = h["messages"][act[1]]
+                    ctl.expect_noticed = 0
+                    ctl.inject(m["body"], m["sender"], m["rcpts"], env_extra={"VERIF_FAULT": "%d:%s" % (act[2], act[3])}, envcut=act[4])
+                    ctl.run()
                 elif op == "second_daemon":
                     import subprocess
                     tr = os.path.join(self.work, "second.trace")
